@@ -607,3 +607,20 @@ def programs(draw, min_len=1, max_len=6, kinds=None, pkg=None, favour_mutators=T
         descriptor = new_desc
     assume(len(steps) >= min_len)
     return {'pkg': pkg, 'steps': steps}
+
+
+def data_dependent_rejection(exc):
+    """Errors that built-in steps document / imply for particular *data* (not for the program's types), which
+    zero-row simulation cannot foresee: a numeric fold of add_computed_field over a row whose sources are all
+    null (avg -> ZeroDivisionError, min/max -> ValueError, multiply -> TypeError from reduce), and concatenate's
+    documented 'empty row' assertion.  Checks count such cases as rejected."""
+    from vlib.kernel import root_cause, inner_frame
+    rc = root_cause(exc)
+    fr = inner_frame(rc) or ''
+    if 'add_computed_field.py' in fr and isinstance(rc, (ZeroDivisionError, ValueError, TypeError)):
+        msg = str(rc)
+        if 'empty' in msg or 'division' in msg or 'zero' in msg.lower():
+            return 'add_computed_field: numeric fold over all-null sources'
+    if isinstance(rc, AssertionError) and 'empty row' in str(rc):
+        return 'concatenate: empty row'
+    return None
